@@ -412,6 +412,7 @@ func installHooks(w *Workload) {
 	zzverifrt.Clock = simrt.ClockNow
 	zzverifrt.ClockAdvance = simrt.ClockJump
 	simrt.TimerHook = zzverifrt.FireTimers
+	simrt.RealTimersHook = func() bool { return zzverifrt.RealTimers }
 	zzverifrt.RandSeed(int64(w.Sched.Seed))
 	simrt.ClockReset()
 	zzverifrt.MapOrder = mapOrderFn(w.MapSalt, w.MapPolicy)
